@@ -21,7 +21,7 @@ func init() {
 		Title: "Decoding terminates with work and memory bounded by the frame size",
 		Level: "exploration",
 		Rule: "the input families F1-F5 of C04 plus long members of the repeated-section families (1 000 and 10 000 filters / reason codes / user properties / subscription identifiers: valid, truncated at every field boundary of the last three elements, and with inconsistent declared lengths), all on the statement-instrumented build. " +
-			"Deterministic oracles with fixed constants: (1) statement points executed <= 2000 + 200*len(input) — an input that loops is cut off by the step budget and reported, never waited for; (2) deep retained size of the returned packet <= 4 KiB + 64*len(input) and every list accessor no longer than the input; (3) bytes allocated during the call <= 16 KiB + 256*declared length (measured on one input per (type, outcome, length) class in the quick tier, on every input in the thorough tier); (4) steps(10 000 elements)/steps(1 000 elements) <= 12. " +
+			"Every stream-corpus frame is also decoded and kept while all the others are decoded three times after it: its retained size and list lengths must not grow. Deterministic oracles with fixed constants: (1) statement points executed <= 2000 + 200*len(input) — an input that loops is cut off by the step budget and reported, never waited for; (2) deep retained size of the returned packet <= 4 KiB + 64*len(input) and every list accessor no longer than the input; (3) bytes allocated during the call <= 16 KiB + 256*declared length (measured on one input per (type, outcome, length) class in the quick tier, on every input in the thorough tier); (4) steps(10 000 elements)/steps(1 000 elements) <= 12. " +
 			"distinct_nontrivial = distinct inputs (content hash) whose decoding entered a body.",
 		Assumptions: []string{
 			"work is measured in executed statement points of the library (instrumented at check time from the current tree), not wall clock",
@@ -29,7 +29,13 @@ func init() {
 		},
 		SingleThread: true,
 		Run:          runC05,
-		Replay:       func(c core.Case) *core.Finding { f, _ := c05Exec(rawFromCase(c), true); return f },
+		Replay: func(c core.Case) *core.Finding {
+			if c.Harness == "c05.kept" {
+				return c05Kept(streamCorpus(), paramInt(c.Params, "index"))
+			}
+			f, _ := c05Exec(rawFromCase(c), true)
+			return f
+		},
 	})
 }
 
@@ -250,6 +256,21 @@ func runC05(x *core.Ctx) {
 		}
 		return true
 	}
+	// a packet, once returned, stays the size its own frame gave it: every
+	// corpus frame is decoded and kept while all the other frames are decoded
+	// after it (a decoder that carries state between calls may let a later
+	// frame grow an earlier packet)
+	if x.Mine() {
+		frames := streamCorpus()
+		for ai, a := range frames {
+			ai, a := ai, a
+			x.Eval("kept-while-decoding-others")
+			if f := c05Kept(frames, ai); f != nil {
+				x.Report(f, func() core.Case { return core.Case{Harness: "c05.kept", Frame: hexOf(a.B), Params: map[string]any{"index": ai}} },
+					func() *core.Finding { return c05Kept(streamCorpus(), ai) })
+			}
+		}
+	}
 	// the long repeated sections first (few inputs, reach deep), the raw
 	// families afterwards
 
@@ -319,6 +340,31 @@ func runC05(x *core.Ctx) {
 	for k, v := range maxSteps {
 		x.R.Extra[k] = v
 	}
+}
+
+// c05Kept decodes frame ai, keeps the packet, decodes every corpus frame
+// three times and measures the kept packet again.
+func c05Kept(frames []CFrame, ai int) *core.Finding {
+	resetGlobals()
+	a := frames[ai]
+	p, err, res := readPacket(bytes.NewReader(a.B), stepBudget(len(a.B)))
+	if err != nil || p == nil || res.Panic != "" || res.Budget {
+		return nil
+	}
+	size0 := digest.Size(p)
+	what0, n0 := listLens(p)
+	for round := 0; round < 3; round++ {
+		for _, b := range frames {
+			readPacket(bytes.NewReader(b.B), stepBudget(len(b.B)))
+		}
+	}
+	size1 := digest.Size(p)
+	what1, n1 := listLens(p)
+	if size1 > size0 || n1 > n0 {
+		return &core.Finding{Class: "earlier-packet-grows/" + bind.TypeNames[a.B[0]>>4],
+			Detail: fmt.Sprintf("the packet decoded from %s (%s) retained %d bytes and %d %s; after %d further frames were decoded it retains %d bytes and %d %s", a.Name, abbrevHex(a.B), size0, n0, what0, 3*len(frames), size1, n1, what1)}
+	}
+	return nil
 }
 
 func maxf(a any, b float64) float64 {
